@@ -169,6 +169,7 @@ def reader_fill_prefix(W, fill, rng):
 
 def gen_reader_cases(rng, tier, with_pos):
     cases = []
+    ci = 0
     for E in (0, 1):
         for W in WORDS_R:
             Wb = W if W else 64
@@ -184,9 +185,15 @@ def gen_reader_cases(rng, tier, with_pos):
                         strict = 1      # read_unary over an all-zero zero-extended tail never returns
                     rb = rng.choice([0, 0, 2, 3]) if strict else 0
                     hdr = world_hdr(E, rW=W, rstrict=strict, rbackend=rb)
-                    cont = [[10, 13], [17]] if with_pos else [[10, 13]]
+                    # every kind of continuation: a plain read repairs a dirty buffer, a look-ahead does not
+                    conts = [[[10, 13]], [[13, min(Wb if W else 32, 9)], [10, 7]], [[11]], [[13, 1], [14, 1], [10, 9]],
+                             [[13, min(Wb if W else 32, 12)], [13, 3], [10, 20]]]
+                    if W != 8:
+                        conts.append([[15, 1, 0, 1], [10, 5]])
                     opsets = []
-                    ns = list(range(0, 65)) if tier != "quick" else sorted(set([0, 1, 2, 7, 8, 9, 31, 32, 33, 63, 64] + [rng.randrange(65) for _ in range(3)]))
+                    ns = list(range(0, 65)) if tier != "quick" else sorted(set(
+                        [0, 1, 2, 7, 8, 9, 31, 32, 33, 63, 64, min(64, fill), min(64, fill + 1), min(64, fill + Wb), max(0, min(64, fill - 1))]
+                        + [rng.randrange(65) for _ in range(3)]))
                     for n in ns:
                         opsets.append(("rbits", [[10, n]]))
                     opsets.append(("runary", [[11]]))
@@ -194,13 +201,21 @@ def gen_reader_cases(rng, tier, with_pos):
                         if n >= 1:
                             opsets.append(("peek", [[13, n], [13, n]]))
                             opsets.append(("peek_skip", [[13, n], [14, max(1, n // 2)]]))
-                    for n in sorted(set([0, 1, Wb - 1, Wb, Wb + 1, 2 * Wb, 2 * Wb + 3, rng.randrange(3 * Wb)])):
+                    # skips relative to the buffer state: ending exactly on a word boundary, one before, one after
+                    for n in sorted(set([0, 1, Wb - 1, Wb, Wb + 1, 2 * Wb, 2 * Wb + 3, rng.randrange(3 * Wb),
+                                         fill, fill + 1, fill + Wb, fill + Wb - 1, fill + Wb + 1, fill + 2 * Wb, fill + 3 * Wb])):
                         opsets.append(("skip", [[12, n]]))
                     if rb != 2:
                         opsets.append(("clone", [[19], [10, 5], [20], [10, 5], [20], [10, 7]]))
                     for name, ops in opsets:
-                        full = pre + ([[17]] if with_pos else []) + ops + cont
-                        cases.append(Case([hdr, data] + full, "%s/%s/W%d" % (name, pname, W)))
+                        kinds = conts if name == "skip" else [conts[ci % len(conts)]]
+                        ci += 1
+                        for cont0 in kinds:
+                            cont = cont0 + ([[17]] if with_pos else [])
+                            if not strict and pname != "random" and pname != "ones" and any(o[0] in (11, 15) for o in cont):
+                                continue
+                            full = pre + ([[17]] if with_pos else []) + ops + cont
+                            cases.append(Case([hdr, data] + full, "%s/%s/W%d" % (name, pname, W)))
     # random histories
     n_hist = 300 if tier == "quick" else 3000
     for _ in range(n_hist):
